@@ -2,6 +2,7 @@ package harness
 
 import (
 	"fmt"
+	"os"
 	"sort"
 	"strings"
 
@@ -11,8 +12,8 @@ import (
 // Violation is one oracle failure.
 type Violation struct {
 	Prop   string `json:"prop"`
-	Rule   string `json:"rule"`   // stable oracle rule id (violation class)
-	Detail string `json:"detail"` // human readable
+	Rule   string `json:"rule"`          // stable oracle rule id (violation class)
+	Detail string `json:"detail"`        // human readable
 	Sig    string `json:"sig,omitempty"` // canonical signature used for known-finding matching
 }
 
@@ -53,6 +54,62 @@ type Exec struct {
 	Traces  map[uint64]struct{} // distinct interleavings (E2 schedule-trace hashes)
 	Dirty   bool                // a run left goroutines behind: abandon the bubble
 	LastRes *Result
+	HashOn  bool // determinism self-test: fold every run's canonical event log into Hash
+	Hash    uint64
+}
+
+var hashDebug = os.Getenv("VERIF_HASH_DEBUG") != ""
+
+func (x *Exec) fold(s string) {
+	if hashDebug {
+		fmt.Fprintf(os.Stderr, "FOLD %q\n", trunc(s, 3000))
+	}
+	h := x.Hash
+	if h == 0 {
+		h = 14695981039346656037
+	}
+	for i := 0; i < len(s); i++ {
+		h = (h ^ uint64(s[i])) * 1099511628211
+	}
+	x.Hash = h
+}
+
+// foldResult hashes the canonical event log of a run: per connection the
+// canonical transcript, the callback trace and the transport-level event
+// kinds; the Close callers' events; the schedule trace and the outcome.
+func (x *Exec) foldResult(r *Result) {
+	for _, cs := range r.Conns {
+		t := ParseOut(cs)
+		writeFault := false
+		for _, f := range cs.cc.Faults {
+			if strings.HasPrefix(f.Kind, "write-err") {
+				writeFault = true
+			}
+		}
+		if writeFault {
+			// which ParameterStatus a failing write hits depends on Go map
+			// iteration order (not seedable): hash the block by its size only
+			x.fold(pgwire.Kinds(t.Msgs))
+			x.fold(fmt.Sprintf("|closed=%d wedged=%v|", cs.Closed, cs.Wedged))
+		} else {
+			x.fold(Canonical(t.Msgs))
+			x.fold(fmt.Sprintf("|raw=%d closed=%d wedged=%v q=%v|", len(cs.Raw), cs.Closed, cs.Wedged, cs.Quiesce))
+		}
+		x.fold(CallbackTrace(cs))
+		for _, e := range cs.Events {
+			x.fold(fmt.Sprintf("%d%s;", e.Seq, e.K))
+		}
+		if len(cs.Plain) > 0 {
+			pm, _ := pgwire.ParseStream(cs.Plain)
+			x.fold(Canonical(pm))
+		}
+	}
+	for _, evs := range r.CloserEvents {
+		for _, e := range evs {
+			x.fold(fmt.Sprintf("%d%s%s;", e.Seq, e.K, e.S))
+		}
+	}
+	x.fold(fmt.Sprintf("trace=%x outcome=%d decisions=%d serve=%v/%s stuck=%v", r.Trace, r.Outcome, r.Decisions, r.ServeReturned, r.ServeErr, r.Stuck))
 }
 
 // NewExec allocates an executor.
@@ -68,6 +125,9 @@ func (x *Exec) Run(c *Case) *Result {
 		r = RunInline(c)
 	}
 	x.LastRes = r
+	if x.HashOn {
+		x.foldResult(r)
+	}
 	if r.Dirty {
 		x.Dirty = true
 	}
